@@ -79,6 +79,19 @@ def _shard_model(args):
     return traces, meta, dict(stats)
 
 
+def _retrying(fn, *a, **kw):
+    """TLC runs killed from outside (rc=-9: the kernel's OOM killer on a crowded machine) are retried twice."""
+    import time
+    for attempt in range(3):
+        try:
+            return fn(*a, **kw)
+        except (common.Machinery, Exception) as e:  # noqa: BLE001
+            if 'rc=-9' in str(e) and attempt < 2:
+                time.sleep(20 * (attempt + 1))
+                continue
+            raise
+
+
 def _pool_map(fn, items, nproc, chunk):
     shards = [items[i:i + chunk] for i in range(0, len(items), chunk)]
     if not shards:
@@ -100,9 +113,9 @@ def _validate(ctx, results, per_batch=3000):
     batches = [traces[i:i + per_batch] for i in range(0, len(traces), per_batch)]
 
     def one(b):
-        return b, ctx.validate({'traces': b}, module='WalkAccept', heap='3g')
+        return b, _retrying(ctx.validate, {'traces': b}, module='WalkAccept', heap='2g')
     out = []
-    with cf.ThreadPoolExecutor(max_workers=4) as ex:
+    with cf.ThreadPoolExecutor(max_workers=3) as ex:
         for b, verd in ex.map(one, batches):
             for t in b:
                 out.append((t, meta[t['id']], verd[t['id']]))
@@ -164,9 +177,9 @@ def run(ctx):
     # -- M -------------------------------------------------------------------------------------------------------------
     # (runs concurrently with G and V: the JVMs and the Python worker processes share the cores)
     mex = cf.ThreadPoolExecutor(max_workers=2)
-    m_futs = [mex.submit(ctx.model, 'WalkGen', 'WalkGenMC' if quick else 'WalkGenMC_thorough', required=ACTIONS,
-                         timeout=3000, workers=8 if quick else 12, heap='3g' if quick else '6g'),
-              mex.submit(ctx.model, 'WalkGen', 'WalkGenLive', required=ACTIONS, timeout=1500, workers=2, heap='2g')]
+    m_futs = [mex.submit(_retrying, ctx.model, 'WalkGen', 'WalkGenMC' if quick else 'WalkGenMC_thorough', required=ACTIONS,
+                         timeout=3000, workers=8 if quick else 12, heap='2g' if quick else '6g'),
+              mex.submit(_retrying, ctx.model, 'WalkGen', 'WalkGenLive', required=ACTIONS, timeout=1500, workers=2, heap='1g')]
     ctx.exhaustive = False
 
     # -- G -------------------------------------------------------------------------------------------------------------
@@ -187,7 +200,7 @@ def run(ctx):
 
         def gen_one(g):
             params, sim, _ = g
-            return cr.behaviours(params, simulate=sim, seed=ctx.seed + 1, workers=4)
+            return _retrying(cr.behaviours, params, simulate=sim, seed=ctx.seed + 1, workers=4)
         with cf.ThreadPoolExecutor(max_workers=len(gens)) as ex:
             gen_res = list(ex.map(gen_one, gens))
         for (params, sim, modes), (behs, r) in zip(gens, gen_res):
@@ -205,7 +218,7 @@ def run(ctx):
         raise common.Machinery(str(e)) from e
     if nbeh < 100:
         raise common.Machinery('too few model behaviours generated')
-    res_g = _pool_map(_shard_model, items, 14, max(50, len(items) // 28 + 1))
+    res_g = _pool_map(_shard_model, items, 10, max(50, len(items) // 28 + 1))
     gstats = collections.Counter()
     for _, _, st in res_g:
         gstats.update(st)
@@ -214,7 +227,7 @@ def run(ctx):
     n_rand = 3000 if quick else 60000
     base = 1_000_000
     specs = [(base + i, ctx.seed * 1_000_003 + i) for i in range(n_rand)]
-    res_r = _pool_map(_shard_random, specs, 14, max(50, n_rand // 28 + 1))
+    res_r = _pool_map(_shard_random, specs, 10, max(50, n_rand // 28 + 1))
     rstats = collections.Counter()
     for _, _, st in res_r:
         rstats.update(st)
